@@ -63,7 +63,17 @@ def _expand(job):
         ctx = replay(system, hist)
         k0 = system.key(ctx)
         if expect_key is not None and k0 != expect_key:
-            raise RuntimeError(f'replay divergence (nondeterminism not owned): {hist!r}')
+            # Re-executing the same history on brand-new objects gave a different complete state.  The harness
+            # owns every source of nondeterminism (checked on the unchanged tree under several seeds), so this
+            # means state leaks between independent objects of the library (class / module level state, a shared
+            # mutable default): report it, twice-confirmed, instead of dying.
+            ctx_b = replay(system, hist)
+            viols.append(common.Violation(
+                'replay_divergence:state_leaks_between_fresh_objects',
+                'the same history replayed on fresh objects reaches a different state than when it was first executed '
+                '(state shared between independent objects)' + ('' if system.key(ctx_b) == k0 else ' - and differs again'),
+                case={'system': repr(arg), 'history': list(hist), 'op': None}).to_json())
+            continue
         spare = None                 # a context known to be in exactly the state of `hist` (see below)
         for op, cost in system.enabled(ctx):
             if devs + cost > K:
